@@ -111,7 +111,7 @@ impl Prop for C10 {
         vec!["release", "verif-debug"]
     }
     fn rule(&self) -> String {
-        "x = p/q (|p|<=40,q<=8; thorough |p|<=60,q<=12) spelled `p / q`, `(p / q)` or as an integer; exact halves and boundary +- 10^-k (k<=7) as decimals; fine boundaries (integer and half +- 10^-k for k in 8..25 at magnitudes 0, 2, 3, 1e15, 2^53, 2^53+1, 2^63-1, 2^64, both signs); x {floor, ceil, round, round(x,n) for n in -6..6}; arguments carrying a unit (km, m/s, decades) with the unit required on the result; wrong arities 0,2,3 (floor/ceil) and 0,3 (round). Both build profiles (release; release+debug-assertions+overflow-checks). Non-trivial = the argument is not an integer or digits != 0; distinct = distinct query strings".into()
+        "x = p/q (|p|<=40,q<=8; thorough |p|<=60,q<=12) spelled `p / q`, `(p / q)` or as an integer; exact halves and boundary +- 10^-k (k<=7) as decimals; fine boundaries (integer and half +- 10^-k for k in 8..25 at magnitudes 0, 2, 3, 1e15, 2^53, 2^53+1, 2^63-1, 2^64, both signs); x {floor, ceil, round, round(x,n) for n in -6..6}; arguments carrying a unit (km, m/s, decades) with the unit required on the result; wrong arities 0,2,3 (floor/ceil) and 0,3 (round), also with a call among the arguments; nested calls f(g(x)), f(g(x) / 3), round(g(x) / 3, 2), round(x, f(d)) and calls inside a larger expression over 6 values x 3 x 3 functions. Both build profiles (release; release+debug-assertions+overflow-checks). Non-trivial = the argument is not an integer or digits != 0; distinct = distinct query strings".into()
     }
     fn assumptions(&self) -> Vec<String> {
         vec!["a non-integer digits argument is not judged".into()]
@@ -134,6 +134,41 @@ impl Prop for C10 {
                 sink(Case::with("unit", format!("round({x} {u}, {n})"), serde_json::json!({"f": "round", "x": x, "u": u, "n": n})));
             }
         }
+        // nested calls: a call as the argument of a call, in the first and in the digits position,
+        // and inside a larger argument expression
+        for x in ["2.567", "-2.567", "7.5", "-7.5", "1234.5678", "0.05"] {
+            let xv = crate::refcalc::ref_decimal(x).unwrap();
+            let fs: [(&str, fn(&BigRational) -> BigRational); 3] = [
+                ("floor", |v| BigRational::from_integer(ref_floor(v))),
+                ("ceil", |v| BigRational::from_integer(ref_ceil(v))),
+                ("round", |v| BigRational::from_integer(ref_round(v))),
+            ];
+            for (f, ff) in &fs {
+                for (g, gf) in &fs {
+                    // f(g(x)), f(g(x) / 3)
+                    let want = ff(&gf(&xv));
+                    sink(Case::with("nested", format!("{f}({g}({x}))"), serde_json::json!({"want": want.to_string()})));
+                    let third = gf(&xv) / BigRational::from_integer(BigInt::from(3));
+                    sink(Case::with("nested", format!("{f}({g}({x}) / 3)"), serde_json::json!({"want": ff(&third).to_string()})));
+                    sink(Case::with("nested", format!("round({g}({x}) / 3, 2)"), serde_json::json!({"want": ref_round_digits(&third, 2).to_string()})));
+                }
+                // the digits argument is itself a call: round(x, g(d))
+                for d in ["1.5", "2.5", "-1.5", "0.4"] {
+                    let dv = crate::refcalc::ref_decimal(d).unwrap();
+                    let n = ff(&dv);
+                    let n = n.to_integer();
+                    use num::ToPrimitive;
+                    let n = n.to_i64().unwrap();
+                    sink(Case::with("nested", format!("round({x}, {f}({d}))"), serde_json::json!({"want": ref_round_digits(&xv, n).to_string()})));
+                    sink(Case::with("nested", format!("round({x}, ({f}({d})))"), serde_json::json!({"want": ref_round_digits(&xv, n).to_string()})));
+                    sink(Case::with("nested", format!("2 * round({x}, {f}({d})) + 1"), serde_json::json!({"want": (ref_round_digits(&xv, n) * BigRational::from_integer(BigInt::from(2)) + BigRational::from_integer(BigInt::from(1))).to_string()})));
+                }
+            }
+        }
+        // arity: a nested call must not change the number of arguments either
+        for q in ["floor(1.5, ceil(2.5))", "ceil(floor(1.5), 2)", "round(1.5, floor(1.2), ceil(3.4))"] {
+            sink(Case::new("arity", q));
+        }
         // arity
         for q in ["floor()", "ceil()", "round()", "floor(1, 2)", "ceil(1, 2)", "floor(1, 2, 3)", "ceil(1.5, 2, 3)", "round(1, 2, 3)", "round(1.5, 1, 1, 1)"] {
             sink(Case::new("arity", q));
@@ -149,6 +184,17 @@ impl Prop for C10 {
             return match got {
                 Res::Err { .. } => fw::pass(true, fw::hash_str(&got.short())),
                 r => fw::fail(format!("arity:{q}"), format!("{q}: wrong number of arguments accepted: {}", r.short())),
+            };
+        }
+        if case.fam == "nested" {
+            let w = case.data["want"].as_str().unwrap();
+            let want = match w.split_once('/') {
+                Some((a, b)) => BigRational::new(a.parse().unwrap(), b.parse().unwrap()),
+                None => BigRational::from_integer(w.parse().unwrap()),
+            };
+            return match got {
+                Res::Ok { value, unit, .. } if unit.is_empty() && value == want => fw::pass(true, fw::hash_str(w)),
+                r => fw::fail("nested-call", format!("{q}: expected {want}, got {}", r.short())),
             };
         }
         let f = case.data["f"].as_str().unwrap();
